@@ -95,13 +95,16 @@ def setup():
     from simkit.core import Streams, derive_seed
 
     n = 0
-    for i in range(400):  # warm lazily imported paths (thread backend excluded: no threads before fork)
-        case = gen_case(Streams(derive_seed("warm", i)), "quick")
-        if case["backend"] != "cf_threadpool":
-            run_case(case)
-            n += 1
-        if n >= 60:
-            break
+    try:
+        for i in range(400):  # warm lazily imported paths (thread backend excluded: no threads before fork)
+            case = gen_case(Streams(derive_seed("warm", i)), "quick")
+            if case["backend"] != "cf_threadpool":
+                run_case(case)
+                n += 1
+            if n >= 60:
+                break
+    except Exception:  # noqa: BLE001 - warm-up only
+        pass
 
 
 # ------------------------------------------------------------------------------------------------
